@@ -1052,6 +1052,7 @@ class ParserField:
             )
 
         type = self.type
+        raw = value
         # trans = context.transformer
 
         if self.discriminator_map and value is not None:
@@ -1059,16 +1060,15 @@ class ParserField:
                 try:
                     value = context.transformer.to_dict(value)
                 except Exception as e:
-                    context.handle_error(
+                    return self._invalid_value(
                         exc.ParseError(
                             item=self.name,
                             type=dict,
                             value=value,
                             field=self,
                             origin_exc=e,
-                        )
+                        ), raw, context, excluded_as_absent
                     )
-                    return unprovided
 
             try:
                 discriminator = value.get(self.discriminator)
@@ -1079,7 +1079,9 @@ class ParserField:
                 type = self.discriminator_map[discriminator]
                 # directly assign type instead parse it in a Logical context
             else:
-                context.handle_error(
+                # a value that selects no branch is an invalid value of this field like any other:
+                # on_error / invalid_values decide (exclude, preserve or throw)
+                return self._invalid_value(
                     exc.DiscriminatorMismatchError(
                         discriminator=self.discriminator,
                         discriminator_value=discriminator,
@@ -1087,9 +1089,8 @@ class ParserField:
                         value=value,
                         item=self.name,
                         type=self.type,
-                    )
+                    ), raw, context, excluded_as_absent
                 )
-                return unprovided
 
         if not type:
             # type is None, not type(None), means the exact same as Any / Rule
@@ -1106,25 +1107,29 @@ class ParserField:
                     field=self,
                     origin_exc=e,
                 )
-                error_option = self.get_on_error(context.options)
-                if error_option == context.options.EXCLUDE:
-                    if self.is_required(context.options):
-                        # required field cannot be excluded
-                        context.handle_error(error)
-                    else:
-                        context.collect_waring(error.formatted_message)
-                        if excluded_as_absent:
-                            # the caller handles the field as one that was not given
-                            return self.EXCLUDED
-                    # return default if provided
-                    # return unprovided if no default is set
-                    return self.get_default(options=context.options, defer=False)
-                elif error_option == context.options.PRESERVE:
-                    context.collect_waring(error.formatted_message)
-                    return value
-                else:
-                    context.handle_error(error)
-                return unprovided
+                return self._invalid_value(error, raw, context, excluded_as_absent)
+
+    def _invalid_value(self, error, value, context: RuntimeContext, excluded_as_absent: bool = False):
+        # the given value of this field is invalid: apply the field's on_error / options.invalid_values
+        error_option = self.get_on_error(context.options)
+        if error_option == context.options.EXCLUDE:
+            if self.is_required(context.options):
+                # required field cannot be excluded
+                context.handle_error(error)
+            else:
+                context.collect_waring(error.formatted_message)
+                if excluded_as_absent:
+                    # the caller handles the field as one that was not given
+                    return self.EXCLUDED
+            # return default if provided
+            # return unprovided if no default is set
+            return self.get_default(options=context.options, defer=False)
+        elif error_option == context.options.PRESERVE:
+            context.collect_waring(error.formatted_message)
+            return value
+        else:
+            context.handle_error(error)
+        return unprovided
 
     @classmethod
     def process_annotate_meta(cls, m, **kwargs):
